@@ -180,3 +180,18 @@ MUTANTS += [
     M("c14-wait-serve-forever", "C14,C15", "AsyncResult.wait serves with no time limit", (A, "            self._conn.serve(self._ttl)", "            self._conn.serve(None)")),
     M("c13-callbacks-shared", "C13", "reply routed by the oldest pending callback instead of its seq", (P, "        _callback = self._request_callbacks.pop(seq, None)", "        _callback = self._request_callbacks.pop(min(self._request_callbacks) if self._request_callbacks and seq % 3 == 2 else seq, None)")),
 ]
+
+MUTANTS += [
+    # ---- C15
+    M("c15-late-reply-accepted", "C15", "late reply no longer discarded", (A, "        if self.expired:\n            return\n        self._is_exc = is_exc", "        self._is_exc = is_exc")),
+    M("c15-timeout-gt", "C15", "Timeout.expired uses > instead of >=", (L, "        return self.finite and time.time() >= self.tmax", "        return self.finite and time.time() > self.tmax")),
+    M("c15-callbacks-not-cleared", "EQUIVALENT", "(equivalent: __call__ runs once per request) callbacks not cleared after running", (A, "        for cb in self._callbacks:\n            cb(self)\n        del self._callbacks[:]", "        for cb in self._callbacks:\n            cb(self)")),
+    M("c15-callbacks-reversed", "C15", "callbacks run in reverse registration order", (A, "        for cb in self._callbacks:\n            cb(self)", "        for cb in reversed(self._callbacks):\n            cb(self)")),
+    M("c15-add-callback-late", "C15", "callback registered after readiness is queued, not run", (A, "        if self._is_ready:\n            func(self)\n        else:\n            self._callbacks.append(func)", "        self._callbacks.append(func)")),
+    M("c15-wait-if", "C15", "wait: while -> if", (A, "        while not self._is_ready and not self._ttl.expired():", "        if not self._is_ready and not self._ttl.expired():")),
+    M("c15-sync-ignores-timeout", "C15", "sync_request ignores the configured timeout", (P, '        timeout = self._config["sync_request_timeout"]\n        return self.async_request(handler, *args, timeout=timeout).value', '        return self.async_request(handler, *args, timeout=30).value')),
+    M("c15-negative-timeout-zero", "C15", "negative timeout treated as already expired", (L, "            self.finite = timeout is not None and timeout >= 0\n            self.tmax = time.time() + timeout if self.finite else None", "            self.finite = timeout is not None\n            self.tmax = time.time() + max(timeout, 0) if self.finite else None")),
+    M("c15-timed-no-expiry", "C15", "timed() forgets to set the expiry when the timeout is < 1", (H, "        res.set_expiry(self.timeout)\n        return res", "        if self.timeout >= 1:\n            res.set_expiry(self.timeout)\n        return res")),
+    M("c15-ready-no-poll", "C15", "ready does not serve pending traffic", (A, "        self._conn.poll_all()\n        return self._is_ready", "        return self._is_ready")),
+    M("c15-timeleft-late", "C15", "timeleft overshoots: waits 10 ms past the expiry", (L, "        return max((0, self.tmax - time.time())) if self.finite else None", "        return max((0, self.tmax - time.time() + 0.01)) if self.finite else None")),
+]
